@@ -114,6 +114,122 @@ type CLICase struct {
 	// Rebuild: the desired state also changes the type of shared.shown, which SQLite can only do by
 	// re-creating the table: whatever is excluded or skipped on that table must survive the rebuild.
 	Rebuild bool `json:"rebuild,omitempty"`
+	// Attached: another pair of states (see evalAttached): an index and a foreign key over columns
+	// that the patterns exclude, present on both sides.
+	Attached bool `json:"attached,omitempty"`
+}
+
+// Attached scenario: the database and the desired state agree on keep (with an index over keep.v)
+// and shared (with a foreign key on shared.shown); the desired state adds table hcl_only. Excluding
+// keep.v / shared.shown hides the column on both sides; the index and the key over it exist on both
+// sides, match no pattern, and have to come out of the apply as they went in.
+var attachedSetup = []string{
+	"CREATE TABLE keep (id integer NOT NULL PRIMARY KEY, v text NULL)",
+	"CREATE INDEX idx_v ON keep (v)",
+	"CREATE TABLE shared (id integer NOT NULL PRIMARY KEY, shown integer NULL, CONSTRAINT fk_shown FOREIGN KEY (shown) REFERENCES keep (id))",
+	"INSERT INTO keep VALUES (1, 'k1'), (2, NULL)",
+	"INSERT INTO shared VALUES (1, 2)",
+}
+
+const attachedHCL = `schema "main" {}
+table "keep" {
+  schema = schema.main
+  column "id" {
+    type = integer
+  }
+  column "v" {
+    type = text
+    null = true
+  }
+  primary_key {
+    columns = [column.id]
+  }
+  index "idx_v" {
+    columns = [column.v]
+  }
+}
+table "shared" {
+  schema = schema.main
+  column "id" {
+    type = integer
+  }
+  column "shown" {
+    type = integer
+    null = true
+  }
+  primary_key {
+    columns = [column.id]
+  }
+  foreign_key "fk_shown" {
+    columns     = [column.shown]
+    ref_columns = [table.keep.column.id]
+    on_update   = NO_ACTION
+    on_delete   = NO_ACTION
+  }
+}
+table "hcl_only" {
+  schema = schema.main
+  column "id" {
+    type = integer
+  }
+  primary_key {
+    columns = [column.id]
+  }
+}
+`
+
+func evalAttached(c CLICase) (problems []string) {
+	bad := func(f string, a ...any) { problems = append(problems, fmt.Sprintf(f, a...)) }
+	w, err := clih.NewWork()
+	if err != nil {
+		return []string{"harness: " + err.Error()}
+	}
+	defer w.Close()
+	if err := w.Exec("db.sqlite", attachedSetup...); err != nil {
+		return []string{"harness: " + err.Error()}
+	}
+	to := "file://" + w.Path("desired.hcl")
+	os.WriteFile(w.Path("desired.hcl"), []byte(attachedHCL), 0o644)
+	if c.Source == "db" {
+		ddl := append(append([]string(nil), attachedSetup[:3]...), "CREATE TABLE hcl_only (id integer NOT NULL PRIMARY KEY)")
+		if err := w.Exec("desired.sqlite", ddl...); err != nil {
+			return []string{"harness: " + err.Error()}
+		}
+		to = w.URL("desired.sqlite")
+	}
+	args := []string{"schema", "apply", "--auto-approve", "--url", w.URL("db.sqlite"), "--to", to}
+	if c.Dev {
+		args = append(args, "--dev-url", "sqlite://dev?mode=memory")
+	}
+	for _, p := range c.Patterns {
+		args = append(args, "--exclude", p)
+	}
+	before, err := w.Dump("db.sqlite")
+	if err != nil {
+		return []string{"harness: " + err.Error()}
+	}
+	res := w.Run(nil, args...)
+	if res.Exit != 0 {
+		bad("`schema apply` failed: %s", res)
+		return
+	}
+	after, err := w.Dump("db.sqlite")
+	if err != nil {
+		return []string{"harness: " + err.Error()}
+	}
+	// everything that was there is still there, unchanged; hcl_only is new.
+	for _, l := range strings.Split(before, "\n") {
+		if l != "" && !strings.Contains(after, l) {
+			bad("the database lost %q in an apply whose states agree on it (exclude %v); statements: %s", l, c.Patterns, res.Stdout)
+		}
+	}
+	if !strings.Contains(after, "hcl_only") {
+		bad("table hcl_only, which matches no pattern, was not created (exclude %v)", c.Patterns)
+	}
+	if r2 := w.Run(nil, args...); r2.Exit != 0 || !strings.Contains(r2.Stdout, "Schema is synced") {
+		bad("second `schema apply` with the same exclusions is not a no-op: %s", r2)
+	}
+	return
 }
 
 // reference: is the table / column hit by a pattern? (table pattern = one segment; column pattern = table.child)
@@ -146,6 +262,9 @@ func has(list []string, s string) bool {
 }
 
 func evalCLI(c CLICase) (problems []string) {
+	if c.Attached {
+		return evalAttached(c)
+	}
 	bad := func(f string, a ...any) { problems = append(problems, fmt.Sprintf(f, a...)) }
 	w, err := clih.NewWork()
 	if err != nil {
@@ -335,6 +454,14 @@ func cliCases(tier string) []CLICase {
 	}
 	for _, sk := range [][]string{{"drop_column"}, {"add_column", "drop_column"}} {
 		cs = append(cs, CLICase{Skip: sk, Via: "env", Source: "hcl", Rebuild: true})
+	}
+	// an index / a foreign key over an excluded column, on both sides.
+	for _, ps := range [][]string{nil, {"keep.v"}, {"shared.shown"}, {"keep.v", "shared.shown"}, {"keep.v[type=column]"}, {"shared.shown[type=column]"}, {"*.v"}} {
+		for _, src := range []string{"hcl", "db"} {
+			for _, dev := range []bool{false, true} {
+				cs = append(cs, CLICase{Patterns: ps, Via: "flag", Dev: dev, Source: src, Attached: true})
+			}
+		}
 	}
 	sort.SliceStable(cs, func(i, j int) bool { return len(cs[i].Patterns)+len(cs[i].Skip) < len(cs[j].Patterns)+len(cs[j].Skip) })
 	return cs
